@@ -102,23 +102,27 @@ def mapOpt {α β : Type} (f : α → Option β) : List α → Option (List β)
     | some b, some bs => some (b :: bs)
     | _, _ => none
 
-def guard' (b : Bool) : Option Unit := if b then some () else none
+def specRoute (o : Oracle) (networks : List Prefix) (e : Yaml) : Option Route :=
+  match e with
+  | .map m =>
+    match (lookup "mtu" m).bind stated, (lookup "route" m).bind (fun v => o.parsePrefix (fmtV v)) with
+    | some mtu, some cidr =>
+      if 500 ≤ mtu ∧ networks.any (fun n => n.contains cidr.addr && decide (n.len ≤ cidr.len)) = true then
+        some { mtu := mtu, metric := 0, cidr := cidr, via := [], install := true }
+      else none
+    | _, _ => none
+  | _ => none
 
-def specRoute (o : Oracle) (networks : List Prefix) (e : Yaml) : Option Route := do
-  let .map m := e | none
-  let mtu ← (lookup "mtu" m).bind stated
-  guard' (decide (500 ≤ mtu))
-  let cidr ← (lookup "route" m).bind (fun v => o.parsePrefix (fmtV v))
-  guard' (networks.any (fun n => n.contains cidr.addr && decide (n.len ≤ cidr.len)))
-  pure { mtu := mtu, metric := 0, cidr := cidr, via := [], install := true }
-
-def specGateway (o : Oracle) (v : Yaml) : Option Gateway := do
-  let .map gm := v | none
-  let .str s ← lookup "gateway" gm | none
-  let a ← o.parseAddr s
-  let w ← statedOr 1 (lookup "weight" gm)
-  guard' (decide (1 ≤ w ∧ w ≤ 2147483647))
-  pure { addr := a, weight := w }
+def specGateway (o : Oracle) (v : Yaml) : Option Gateway :=
+  match v with
+  | .map gm =>
+    match lookup "gateway" gm with
+    | some (.str s) =>
+      match o.parseAddr s, statedOr 1 (lookup "weight" gm) with
+      | some a, some w => if 1 ≤ w ∧ w ≤ 2147483647 then some { addr := a, weight := w } else none
+      | _, _ => none
+    | _ => none
+  | _ => none
 
 def specVia (o : Oracle) (v : Yaml) : Option (List Gateway) :=
   match v with
@@ -126,19 +130,23 @@ def specVia (o : Oracle) (v : Yaml) : Option (List Gateway) :=
   | .list l => mapOpt (specGateway o) l
   | _ => none
 
-def specUnsafe (o : Oracle) (networks : List Prefix) (e : Yaml) : Option Route := do
-  let .map m := e | none
-  let mtu ← statedOr 0 (lookup "mtu" m)
-  guard' (decide (mtu = 0 ∨ 500 ≤ mtu))
-  let metric ← statedOr 0 (lookup "metric" m)
-  guard' (decide (0 ≤ metric ∧ metric ≤ 2147483647))
-  let via ← (lookup "via" m).bind (specVia o)
-  let cidr ← (lookup "route" m).bind (fun v => o.parsePrefix (fmtV v))
-  let install ← match lookup "install" m with
-    | none => some true
-    | some v => parseBool (fmtV v)
-  guard' (networks.all (fun n => !n.contains cidr.addr))
-  pure { mtu := mtu, metric := metric, cidr := cidr, via := via, install := install }
+def specInstall (v : Option Yaml) : Option Bool :=
+  match v with
+  | none => some true
+  | some v => parseBool (fmtV v)
+
+def specUnsafe (o : Oracle) (networks : List Prefix) (e : Yaml) : Option Route :=
+  match e with
+  | .map m =>
+    match statedOr 0 (lookup "mtu" m), statedOr 0 (lookup "metric" m), (lookup "via" m).bind (specVia o),
+          (lookup "route" m).bind (fun v => o.parsePrefix (fmtV v)), specInstall (lookup "install" m) with
+    | some mtu, some metric, some via, some cidr, some install =>
+      if (mtu = 0 ∨ 500 ≤ mtu) ∧ (0 ≤ metric ∧ metric ≤ 2147483647) ∧
+          networks.any (fun n => n.contains cidr.addr) = false then
+        some { mtu := mtu, metric := metric, cidr := cidr, via := via, install := install }
+      else none
+    | _, _, _, _, _ => none
+  | _ => none
 
 def specLoad (entry : Yaml → Option Route) (v : Option Yaml) : Option (List Route) :=
   match v with
